@@ -141,7 +141,7 @@ func (m *ErrorMessage) UnmarshalBinary(data []byte) error {
 		return fmt.Errorf("failed to decode compact length")
 	}
 
-	if len(data) < bytesRead+int(length) {
+	if length > uint64(len(data)-bytesRead) {
 		return fmt.Errorf("data too short for error message")
 	}
 
@@ -270,6 +270,10 @@ func (m *PeerInfo) UnmarshalBinary(data []byte) error {
 	// skip the already read compact length bytes
 	buffer.Next(bytesRead)
 
+	if nameLength > uint64(buffer.Len()) {
+		return fmt.Errorf("app name length %d exceeds the remaining %d bytes", nameLength, buffer.Len())
+	}
+
 	nameBuffer := make([]byte, nameLength)
 	_, err = io.ReadFull(buffer, nameBuffer)
 	if err != nil {
@@ -386,11 +390,19 @@ func (m *Message) ReadFrom(reader io.Reader) (int64, error) {
 	}
 	totalBytesRead += 1
 
-	payload := make([]byte, encodedMessageLength-1)
-	bytesRead, err := io.ReadFull(reader, payload)
-	totalBytesRead += int64(bytesRead)
+	// The length covers the type byte: zero is not a message. The payload buffer grows with the
+	// bytes that actually arrive instead of being allocated from the (untrusted) length prefix.
+	if encodedMessageLength == 0 {
+		return totalBytesRead, fmt.Errorf("invalid message length 0")
+	}
+	payloadLength := int64(encodedMessageLength - 1)
+	payload, err := io.ReadAll(io.LimitReader(reader, payloadLength))
+	totalBytesRead += int64(len(payload))
 	if err != nil {
 		return totalBytesRead, err
+	}
+	if int64(len(payload)) != payloadLength {
+		return totalBytesRead, io.ErrUnexpectedEOF
 	}
 
 	var unmarshaler encoding.BinaryUnmarshaler
